@@ -12,6 +12,7 @@ import (
 	"github.com/bnb-chain/tss-lib/v2/common"
 	"github.com/bnb-chain/tss-lib/v2/crypto/paillier"
 	ecdsakeygen "github.com/bnb-chain/tss-lib/v2/ecdsa/keygen"
+	"github.com/bnb-chain/tss-lib/v2/tss"
 
 	"verif/core"
 	"verif/sim"
@@ -157,6 +158,21 @@ func c05Gen(tier string, seed int64) []core.Case {
 				cs = append(cs, core.Case{ID: id, Class: id, Kind: "weak", P: p, Cost: sc.cost + 6})
 			}
 		}
+		if sc.proto == "ecdsa-keygen" || sc.proto == "ecdsa-resharing" {
+			// the two optional-proof switches are independent: with only one of them set the other proof stays mandatory
+			for fl, field := range map[string]string{"nomod": "fac", "nofac": "mod"} {
+				for _, fi := range staticFields[sc.proto] {
+					if !strings.HasPrefix(strings.ToLower(fi.Field), field) || !fi.Repeated {
+						continue
+					}
+					f := faultSpec{fi.Type, fi.Field, "", "list-empty", poss[k%3], false, ""}
+					p := f.P(sc.P())
+					p["flags"] = fl
+					id := fmt.Sprintf("%s/flags=%s/%s", sc.proto, fl, f.String())
+					cs = append(cs, core.Case{ID: id, Class: id, Kind: "field", P: p, Cost: sc.cost})
+				}
+			}
+		}
 		if strings.HasSuffix(sc.proto, "signing") || strings.HasSuffix(sc.proto, "resharing") {
 			for _, pos := range poss {
 				if tier != "thorough" && pos != poss[k%3] {
@@ -227,6 +243,13 @@ func c05Run(c core.Case, env *core.Env) core.Result {
 		return r
 	}
 	f := faultFromP(c.P)
+	switch c.P.Str("flags") {
+	case "nomod":
+		sim.ParamHook = func(p *tss.Parameters) { p.SetNoProofMod() }
+	case "nofac":
+		sim.ParamHook = func(p *tss.Parameters) { p.SetNoProofFac() }
+	}
+	defer func() { sim.ParamHook = nil }()
 	var fr *faultRun
 	if c.Kind == "control" {
 		w, in, err := s.make(env.Seed)
